@@ -244,6 +244,10 @@ func (u *Upstream) WriteDataPoints(ctx context.Context, dataID *message.DataID, 
 	if u.state.Is(streamStatusDraining) {
 		return errors.New("draining")
 	}
+	if len(dps) == 0 {
+		// nothing to buffer: an empty group must not produce a chunk without data points
+		return nil
+	}
 
 	select {
 	case <-u.ctx.Done():
